@@ -11,6 +11,7 @@ import (
 	"bytes"
 	"log/slog"
 	"net/netip"
+	"regexp"
 	"time"
 
 	"github.com/gaissmai/bart"
@@ -1172,7 +1173,7 @@ func specNetType(t *bart.Table[NetworkType], ip netip.Addr) NetworkType { return
 //@   opaque
 func specNetFound(t *bart.Table[NetworkType], ip netip.Addr) bool { return false }
 
-//@ func github.com/gaissmai/bart.(*Table).Lookup
+//@ func github.com/gaissmai/bart.(*Table).Lookup[github.com/slackhq/nebula.NetworkType]
 //@   trusted longest-prefix lookup in an immutable table: a deterministic function of table and address; reads only
 //@   ensures val == specNetType(t, ip) && ok == specNetFound(t, ip)
 //@   assigns nothing
@@ -1214,6 +1215,122 @@ func specNetFound(t *bart.Table[NetworkType], ip netip.Addr) bool { return false
 //@   ensures[simple] implies(i.networks == n0, len(c.Networks()) == 1 && len(c.UnsafeNetworks()) == 0 && liteContains(myVpnNetworksTable, c.Networks()[0].Addr()))
 //@   loop 1 invariant i.networks != nil && fresh(i.networks)
 //@   loop 2 invariant i.networks != nil && fresh(i.networks)
+
+// =====================================================================
+// C38 — allow lists: longest prefix with a safe default (query side)
+// =====================================================================
+//
+// specLPM / specLPMFound: value and success of the longest-prefix lookup of
+// an address in a table of booleans (bart, uninterpreted). The query
+// functions are exactly: a missing list allows everything; a list answers
+// with the value of the most specific matching prefix (false when nothing
+// matches); a remote list requires both the per-overlay-range list (when one
+// matches the overlay address) and the global list to allow; interface names
+// take the value of the first matching rule, else the opposite of the rules'
+// (uniform) value.
+
+//@ func specLPM
+//@   opaque
+func specLPM(t *bart.Table[bool], ip netip.Addr) bool { return false }
+
+//@ func specLPMFound
+//@   opaque
+func specLPMFound(t *bart.Table[bool], ip netip.Addr) bool { return false }
+
+//@ func specInside
+//@   opaque
+func specInside(t *bart.Table[*AllowList], ip netip.Addr) *AllowList { return nil }
+
+//@ func specInsideFound
+//@   opaque
+func specInsideFound(t *bart.Table[*AllowList], ip netip.Addr) bool { return false }
+
+//@ func github.com/gaissmai/bart.(*Table).Lookup[bool]
+//@   trusted longest-prefix lookup in an immutable table: a deterministic function of table and address; the zero value when nothing matches
+//@   ensures val == specLPM(t, ip) && ok == specLPMFound(t, ip) && implies(!ok, !val)
+//@   assigns nothing
+//@ func github.com/gaissmai/bart.(*Table).Lookup[*github.com/slackhq/nebula.AllowList]
+//@   trusted longest-prefix lookup in an immutable table: a deterministic function of table and address; reads only
+//@   ensures val == specInside(t, ip) && ok == specInsideFound(t, ip)
+//@   assigns nothing
+//@ func regexp.(*Regexp).MatchString
+//@   trusted regular expression match, a deterministic function of expression and string
+//@   ensures result == specNameMatch(re, s)
+//@   assigns nothing
+
+//@ func specNameMatch
+//@   opaque
+func specNameMatch(re *regexp.Regexp, s string) bool { return false }
+
+//@ func specAllow
+//@   pure
+func specAllow(al *AllowList, addr netip.Addr) bool {
+	if al == nil {
+		return true
+	}
+	return specLPMFound(al.cidrTree, addr) && specLPM(al.cidrTree, addr)
+}
+
+//@ func specInsideList
+//@   pure
+func specInsideList(al *RemoteAllowList, vpnAddr netip.Addr) *AllowList {
+	if al.insideAllowLists != nil && specInsideFound(al.insideAllowLists, vpnAddr) {
+		return specInside(al.insideAllowLists, vpnAddr)
+	}
+	return nil
+}
+
+//@ func (*AllowList).Allow
+//@   props C38
+//@   requires implies(al != nil, al.cidrTree != nil)
+//@   ensures result == specAllow(al, addr)
+//@   assigns nothing
+
+//@ func (*LocalAllowList).Allow
+//@   props C38
+//@   requires implies(al != nil && al.AllowList != nil, al.AllowList.cidrTree != nil)
+//@   ensures result == (al == nil || specAllow(al.AllowList, udpAddr))
+//@   assigns nothing
+
+//@ func (*RemoteAllowList).getInsideAllowList
+//@   props C38
+//@   requires al != nil
+//@   ensures result == specInsideList(al, vpnAddr)
+//@   assigns nothing
+
+//@ func (*RemoteAllowList).AllowUnknownVpnAddr
+//@   props C38
+//@   requires implies(al != nil && al.AllowList != nil, al.AllowList.cidrTree != nil)
+//@   ensures result == (al == nil || specAllow(al.AllowList, vpnAddr))
+//@   assigns nothing
+
+//@ func (*RemoteAllowList).Allow
+//@   props C38
+//@   requires al != nil && implies(al.AllowList != nil, al.AllowList.cidrTree != nil) && implies(specInsideList(al, vpnAddr) != nil, specInsideList(al, vpnAddr).cidrTree != nil)
+//@   ensures result == (specAllow(specInsideList(al, vpnAddr), udpAddr) && specAllow(al.AllowList, udpAddr))
+//@   assigns nothing
+
+//@ func (*RemoteAllowList).AllowAll
+//@   props C38
+//@   ghost j int
+//@   requires al != nil && implies(al.AllowList != nil, al.AllowList.cidrTree != nil)
+//@   requires[inside] forall(func(m int) bool { return implies(0 <= m && m < len(vpnAddrs) && specInsideList(al, vpnAddrs[m]) != nil, specInsideList(al, vpnAddrs[m]).cidrTree != nil) })
+//@   ensures[global] implies(result, specAllow(al.AllowList, udpAddr))
+//@   ensures[each]   implies(result && 0 <= j && j < len(vpnAddrs), specAllow(specInsideList(al, vpnAddrs[j]), udpAddr))
+//@   ensures[deny]   implies(!specAllow(al.AllowList, udpAddr), !result)
+//@   assigns nothing
+//@   loop 1 invariant implies(0 <= j && j < rangeindex, specAllow(specInsideList(al, vpnAddrs[j]), udpAddr))
+
+//@ func (*LocalAllowList).AllowName
+//@   props C38
+//@   ghost j int
+//@   requires forall(func(m int) bool { return implies(al != nil && 0 <= m && m < len(al.nameRules), al.nameRules[m].Name != nil) })
+//@   ensures[open]    implies(al == nil || len(al.nameRules) == 0, result)
+//@   ensures[first]   implies(al != nil && 0 <= j && j < len(al.nameRules) && specNameMatch(al.nameRules[j].Name, name) && forall(func(m int) bool { return implies(0 <= m && m < j, !specNameMatch(al.nameRules[m].Name, name)) }), result == al.nameRules[j].Allow)
+//@   ensures[nomatch] implies(al != nil && len(al.nameRules) > 0 && forall(func(m int) bool { return implies(0 <= m && m < len(al.nameRules), !specNameMatch(al.nameRules[m].Name, name)) }), result == !al.nameRules[0].Allow)
+//@   assigns nothing
+//@   loop 1 invariant forall(func(m int) bool { return implies(0 <= m && m < rangeindex, !specNameMatch(al.nameRules[m].Name, name)) })
+//@   loop 1 assigns nothing
 
 // =====================================================================
 // C42 — certificate reload never changes a node's identity
